@@ -113,6 +113,9 @@ META = dict(
     level_note="trusted base: numpy linear algebra, the reference module",
 )
 
+META["rule"] += (
+    " " + 'Added after the second round of seeded changes: dense graphs of 140/220/300 nodes (density >= 0.97, undirected and directed) on which degrees, clustering, transitivity, neighbour degrees, matching index, the four motif clusterings and their n.s.i. relatives are compared with int64 matrix expressions (counts beyond 16-bit ranges).')
+
 REFUSALS = ("NotImplementedError",)
 
 
